@@ -101,7 +101,9 @@ Proof.
   intros Hwe. destruct (dirs_ok c we Ec Hwe) as (D1 & D2 & D3 & D4 & D5 & _).
   unfold gen_pawn_captures_dir. change (vstm v) with c.
   rewrite (Hpbb p Hlegal), (Hoth' p Hlegal), D1, D2, (prom_word_some c Ec). cbn [bind]. rewrite D4, D5. cbn [shift_bb].
-  fold (cap_word p we). rewrite !land_swap. fold (cap_promo_word p we). fold (cap_norm_word p we).
+  fold (cap_word p we).
+  rewrite (land_swap (cap_word p we) evt (prom_word c)), (land_swap (cap_word p we) evt (bnot (prom_word c))).
+  fold (cap_promo_word p we). fold (cap_norm_word p we).
   rewrite (loop_from_masked (cap_promo_word p we) (capdir c we) (fun from to => promo_qn from to ++ promo_rb from to)).
   - cbn [bind].
     rewrite (loop_from_masked (cap_norm_word p we) (capdir c we) (fun from to => [mk_code from to NORMAL PT_NONE])).
@@ -142,7 +144,9 @@ Proof.
   destruct (dirs_ok c DW Ec (or_introl eq_refl)) as (D1 & D2 & D3 & _).
   unfold gen_pawn_quiet. change (vstm v) with c.
   rewrite (Hpbb p Hlegal), D1, D2, (prom_word_some c Ec), (dbl_word_some c Ec), (Hocc' p Hlegal). cbn [bind shift_bb].
-  fold (push_word p). fold (dbl_push_word p). rewrite !land_swap. fold (promo_push_word p). fold (single_push_word p).
+  fold (push_word p). fold (dbl_push_word p).
+  rewrite (land_swap (push_word p) evt (prom_word c)), (land_swap (push_word p) evt (bnot (prom_word c))).
+  fold (promo_push_word p). fold (single_push_word p).
   rewrite <- D3.
   rewrite (loop_from_masked (promo_push_word p) (fwd c)
              (fun from to => (if prom_nq then [] else promo_qn from to) ++ promo_rb from to)).
@@ -163,7 +167,7 @@ Proof.
       { intros u Hu. apply (sq_list_in _ u (dbl_push_word_lt p)) in Hu.
         apply (dbl_push_word_bit p Hlegal) in Hu as (s & t & Hs & E1 & _ & _ & E2 & _).
         assert (Ht : t < 64) by now apply step_lt in E1. assert (Hu : u < 64) by now apply step_lt in E2.
-        rewrite (from_of_eq p (fwd c) t u Ht E2), (from_of_eq p (fwd c) s t (proj1 Hs) E1).
+        rewrite (from_of_eq (fwd c) t u Ht E2), (from_of_eq (fwd c) s t (proj1 Hs) E1).
         rewrite mk_code_normal by (try apply Hs; assumption). apply code_to. apply valid_normal; [apply Hs|exact Hu]. }
       induction (sq_list_of_bb (dbl_push_word p)) as [|x l IH]; cbn [filter flat_map map]; [reflexivity|].
       rewrite (G x (or_introl eq_refl)).
@@ -171,8 +175,8 @@ Proof.
     - intros u Hu. apply filter_In in Hu as [Hu _]. apply (sq_list_in _ u (dbl_push_word_lt p)) in Hu.
       apply (dbl_push_word_bit p Hlegal) in Hu as (s & t & Hs & E1 & _ & _ & E2 & _).
       assert (Ht : t < 64) by now apply step_lt in E1.
-      rewrite (back_from p (fwd c) t u Ht E2). cbn [bind]. rewrite (back_from p (fwd c) s t (proj1 Hs) E1). cbn [bind].
-      now rewrite (from_of_eq p (fwd c) t u Ht E2), (from_of_eq p (fwd c) s t (proj1 Hs) E1). }
+      rewrite (back_from (fwd c) t u Ht E2). cbn [bind]. rewrite (back_from (fwd c) s t (proj1 Hs) E1). cbn [bind].
+      now rewrite (from_of_eq (fwd c) t u Ht E2), (from_of_eq (fwd c) s t (proj1 Hs) E1). }
   rewrite Hd. cbn [bind].
   rewrite (loop_from_masked (single_push_word p) (fwd c) (fun from to => [mk_code from to NORMAL PT_NONE])).
   2:{ apply land_lt. apply push_word_lt. }
@@ -219,7 +223,324 @@ Proof.
     + f_equal. induction (sq_list_of_bb (piece_word b c pt)) as [|x l IH]; cbn [flat_map]; [reflexivity|].
       now rewrite tmask_app, IH.
     + intros from Hfr. apply (sq_list_in _ from (piece_word_lt b c pt)) in Hfr.
-      apply (piece_bit p Hlegal pt from Hnz) in Hfr as [Hfr _]. now apply ev_moves_from.
+      apply (piece_bit p pt from Hnz) in Hfr as [Hfr _]. now apply ev_moves_from.
+Qed.
+
+(** ** king *)
+(* movegen.go:1012 / 1026: attacks.AttacksTo(p, toSquare, them).PopCount() == 0 *)
+Definition king_keep (y : N) : bool := (popcount (attacks_to_spec p (To y) (flip c)) =? 0)%nat.
+
+Lemma Eflip : flipc c = flip c /\ flip c < 2.
+Proof. destruct (flipc_lt c Ec) as (A & B & _). now split. Qed.
+
+Lemma ev_king cap k : k < 64 -> at_ b k = mk_piece c KING ->
+  (forall s, s < 64 -> at_ b s = mk_piece c KING -> s = k) ->
+  gen_king_moves v (mode_of cap) true = Some (filter king_keep (to_list k (king_word p cap k))).
+Proof.
+  intros Hk Hat Hun. destruct (king_from p k Hk Hat Hun) as [_ Hfrom]. destruct Eflip as [Ef Hfc].
+  assert (Hloop : forall W, W < W64 ->
+    flat_map_o (fun to => do atk <- attacks_to_impl v to (flipc c);
+                          Some (if (popcount atk =? 0)%nat then [mk_code k to NORMAL PT_NONE] else []))
+               (sq_list_of_bb W) = Some (filter king_keep (to_list k W))).
+  { intros W HW. unfold to_list.
+    rewrite (flat_map_o_some _ (fun to => if (popcount (attacks_to_spec p to (flip c)) =? 0)%nat
+                                          then [mk_code k to NORMAL PT_NONE] else [])).
+    - f_equal.
+      assert (G : forall t, In t (sq_list_of_bb W) -> To (mk_code k t NORMAL PT_NONE) = t).
+      { intros t Ht. apply (sq_list_in W t HW) in Ht. apply (testbit_lt64 W t HW) in Ht. now apply mk_code_fields. }
+      induction (sq_list_of_bb W) as [|x l IH]; cbn [flat_map map filter]; [reflexivity|].
+      unfold king_keep at 1. rewrite (G x (or_introl eq_refl)).
+      destruct (popcount (attacks_to_spec p x (flip c)) =? 0)%nat; cbn [app]; rewrite IH by (intros u Hu; apply G; now right); reflexivity.
+    - intros t Ht. apply (sq_list_in W t HW) in Ht. apply (testbit_lt64 W t HW) in Ht.
+      rewrite Ef, (attacks_to_exact p t (flip c) Hlegal Ht Hfc). reflexivity. }
+  unfold gen_king_moves. change (vstm v) with c. rewrite (pbb_c p Hlegal KING) by reflexivity. cbn [bind].
+  rewrite Hfrom. rewrite (gab_king k 0 Hk). cbn [bind]. rewrite (Hoth p Hlegal).
+  unfold mode_of, king_word. destruct cap.
+  - replace (has_nq 1) with true by reflexivity. replace (has_q 1) with false by reflexivity.
+    cbn [bind]. rewrite Hloop by (apply land_lt; apply bb_of_lt; apply king_targets_lt). cbn [bind]. now rewrite app_nil_r.
+  - replace (has_nq 2) with false by reflexivity. replace (has_q 2) with true by reflexivity.
+    cbn [bind]. rewrite (Hocc p Hlegal). rewrite Hloop by (apply ldiff_lt; apply bb_of_lt; apply king_targets_lt). reflexivity.
 Qed.
 
 End Evasion.
+
+(** ** getEvasionTargets *)
+Section Targets.
+Variable p : pos.
+Hypothesis Hlegal : legal_pos p = true.
+Local Notation b := (brd p).
+Local Notation c := (stm p).
+Local Notation v := (view_of_spec p).
+
+Definition king_attackers : N := attacks_to_spec p (king_sq b c) (flip c).
+
+(* movegen.go:793-808 *)
+Definition evasion_targets_spec : N :=
+  let atk := king_attackers in
+  if (popcount atk =? 1)%nat then
+    if KNIGHT <? type_of (at_ b (lsb atk)) then N.lor atk (between (lsb atk) (king_sq b c)) else atk
+  else atk.
+
+Lemma lor_lt a x : a < W64 -> x < W64 -> N.lor a x < W64.
+Proof.
+  intros Ha Hx. rewrite W64_pow. apply lt_pow2_of_bits. intros i Hi.
+  now rewrite N.lor_spec, (bits_high_false a i Ha Hi), (bits_high_false x i Hx Hi).
+Qed.
+
+Lemma attacks_to_spec_lt s x : attacks_to_spec p s x < W64.
+Proof.
+  unfold attacks_to_spec. rewrite attackers_word. apply lor_lt; [apply bb_filter_lt|].
+  apply bb_of_lt. intros t Ht. unfold ep_conv2 in Ht. destruct (_ || _); [destruct Ht|].
+  destruct (_ && _) eqn:E; [|destruct Ht]. destruct Ht as [<-|[]]. lia.
+Qed.
+
+Theorem evasion_targets_some : evasion_targets v = Some evasion_targets_spec.
+Proof.
+  pose proof (legal_wfp p Hlegal) as Hw. pose proof (wf_stm p Hw) as Hc.
+  destruct (flipc_lt c Hc) as (Ef & Hfc & _).
+  pose proof (legal_pos_facts p Hlegal) as L. destruct (lf_own_king p _ L) as [Hk _].
+  unfold evasion_targets. change (vstm v) with c. rewrite (king_square_view p c Hc). cbn [bind].
+  rewrite Ef, (attacks_to_exact p _ (flip c) Hlegal Hk Hfc). cbn [bind].
+  unfold evasion_targets_spec, king_attackers. cbv zeta.
+  set (atk := attacks_to_spec p (king_sq b c) (flip c)).
+  assert (Hlt : atk < W64) by apply attacks_to_spec_lt.
+  clearbody atk.
+  destruct (popcount atk =? 1)%nat eqn:Ep; [|reflexivity].
+  assert (Hnz : atk <> 0).
+  { intros Z. rewrite Z in Ep. discriminate. }
+  assert (Hl : lsb atk < 64).
+  { destruct (lsb_spec _ Hnz) as [Hb _]. apply (testbit_lt64 _ _ Hlt Hb). }
+  rewrite (board_at_view p _ (wf_len p Hw) Hl). cbn [bind]. rewrite land7.
+  destruct (KNIGHT <? type_of (at_ b (lsb atk))); [|reflexivity].
+  unfold intermediate_bb. replace (lsb atk <? 64) with true by lia.
+  replace (king_sq b c <? 64) with true by lia. cbn [andb].
+  now rewrite (intermediate_exact _ _ Hl Hk).
+Qed.
+
+End Targets.
+
+(** ** the evasion list is a filter of the non-evasion list *)
+Section Assembly.
+Variable prom_nq : bool.
+Variable p : pos.
+Hypothesis Hlegal : legal_pos p = true.
+Local Notation b := (brd p).
+Local Notation c := (stm p).
+Local Notation v := (view_of_spec p).
+Local Notation k0 := (king_sq (brd p) (stm p)).
+Local Notation evt := (evasion_targets_spec p).
+
+Definition ep_comp (we : dir) : list N := if ep p =? 64 then [] else ep_list p we.
+
+(* the fifteen component lists of GeneratePseudoLegalMoves, in generation order *)
+Definition comp (k : nat) : list N :=
+  match k with
+  | 0 => cap_promo_list p DW | 1 => cap_norm_list p DW | 2 => cap_promo_list p DE | 3 => cap_norm_list p DE
+  | 4 => ep_comp DW | 5 => ep_comp DE | 6 => promo_push_list p (nq_prs prom_nq)
+  | 7 => to_list k0 (king_word p true k0) | 8 => off_list p true
+  | 9 => promo_push_list p (quiet_prs prom_nq) | 10 => double_list p | 11 => single_list p
+  | 12 => castle_list p | 13 => to_list k0 (king_word p false k0) | 14 => off_list p false
+  | _ => []
+  end%nat.
+
+Definition ks (mode : N) : list nat :=
+  (if has_nq mode then seq 0 9 else []) ++ (if has_q mode then seq 9 6 else []).
+
+(* what evasion mode keeps of each component *)
+Definition comp_keep (k : nat) (y : N) : bool :=
+  match k with
+  | 4 | 5 => true
+  | 7 | 13 => king_keep p y
+  | 12 => false
+  | _ => N.testbit evt (To y)
+  end%nat.
+
+Lemma king_facts : k0 < 64 /\ at_ b k0 = mk_piece c KING /\ (forall s, s < 64 -> at_ b s = mk_piece c KING -> s = k0).
+Proof.
+  pose proof (legal_pos_facts p Hlegal) as L. destruct (lf_own_king p _ L) as [A B]. repeat split; try assumption.
+  exact (lf_own_uniq p _ L).
+Qed.
+
+Lemma comp_class k x : (k < 15)%nat -> (In x (comp k) <-> In x (class_codes prom_nq p k)).
+Proof.
+  intros Hk. destruct king_facts as (K1 & K2 & K3).
+  assert (Hep : forall we, is_we we -> (In x (ep_comp we) <-> In x (class_codes prom_nq p (ep_cls we)))).
+  { intros we Hwe. unfold ep_comp. destruct (ep_facts p Hlegal) as [He|[He He0]].
+    - rewrite He. cbn [N.eqb Pos.eqb]. split; [intros []|intros H; exfalso].
+      apply (no_ep_class prom_nq p Hlegal (ep_cls we) x He); [destruct Hwe as [-> | ->]; cbn; auto|exact H].
+    - replace (ep p =? 64) with false by lia. now apply ep_class. }
+  assert (Hcases : (k = 0 \/ k = 1 \/ k = 2 \/ k = 3 \/ k = 4 \/ k = 5 \/ k = 6 \/ k = 7 \/ k = 8 \/ k = 9 \/
+                    k = 10 \/ k = 11 \/ k = 12 \/ k = 13 \/ k = 14)%nat) by lia.
+  destruct Hcases as [->|[->|[->|[->|[->|[->|[->|[->|[->|[->|[->|[->|[->|[->| ->]]]]]]]]]]]]]]; cbn [comp].
+  - apply (cap_promo_class prom_nq p Hlegal DW x). now left.
+  - apply (cap_norm_class prom_nq p Hlegal DW x). now left.
+  - apply (cap_promo_class prom_nq p Hlegal DE x). now right.
+  - apply (cap_norm_class prom_nq p Hlegal DE x). now right.
+  - apply (Hep DW). now left.
+  - apply (Hep DE). now right.
+  - apply (promo_push_class prom_nq p Hlegal); [apply nq_prs_ok|apply nq_prs_cls|now left].
+  - now apply (king_class prom_nq p Hlegal true).
+  - apply (off_class prom_nq p Hlegal true).
+  - apply (promo_push_class prom_nq p Hlegal); [apply quiet_prs_ok|apply quiet_prs_cls|now right].
+  - apply double_class; exact Hlegal.
+  - apply single_class; exact Hlegal.
+  - apply castle_class; exact Hlegal.
+  - now apply (king_class prom_nq p Hlegal false).
+  - apply (off_class prom_nq p Hlegal false).
+Qed.
+
+Lemma ep_part :
+  (if vep v =? 64 then Some [] else do a <- gen_ep_dir v DW; do e <- gen_ep_dir v DE; Some (a ++ e)) =
+  Some (ep_comp DW ++ ep_comp DE).
+Proof.
+  change (vep v) with (ep p). unfold ep_comp. destruct (ep_facts p Hlegal) as [He|[He _]].
+  - rewrite He. reflexivity.
+  - replace (ep p =? 64) with false by lia.
+    rewrite (gen_ep_eq p Hlegal DW (or_introl eq_refl) He), (gen_ep_eq p Hlegal DE (or_intror eq_refl) He). reflexivity.
+Qed.
+
+Lemma nonev_list mode : gen_pseudo prom_nq v mode false = Some (concat (map comp (ks mode))).
+Proof.
+  destruct king_facts as (K1 & K2 & K3).
+  unfold gen_pseudo, ks. cbn [bind].
+  assert (Hnq : (do a <- gen_pawn_moves prom_nq v 1 false 0; do k <- gen_king_moves v 1 false; do m <- gen_moves v 1 false 0;
+                 Some (a ++ k ++ m)) = Some (concat (map comp (seq 0 9)))).
+  { unfold gen_pawn_moves. replace (has_nq 1) with true by reflexivity. replace (has_q 1) with false by reflexivity.
+    unfold gen_pawn_nonquiet.
+    rewrite (gen_captures_eq p Hlegal DW (or_introl eq_refl)), (gen_captures_eq p Hlegal DE (or_intror eq_refl)). cbn [bind].
+    rewrite ep_part. cbn [bind]. rewrite (gen_pawn_promnq_eq prom_nq p Hlegal). cbn [bind].
+    pose proof (gen_king_eq p Hlegal true k0 K1 K2 K3) as Hkg. change (mode_of true) with 1 in Hkg. rewrite Hkg. cbn [bind].
+    pose proof (gen_moves_eq p Hlegal true) as Hmg. change (mode_of true) with 1 in Hmg. rewrite Hmg.
+    cbn [bind seq map concat comp]. rewrite !app_nil_r, <- !app_assoc. reflexivity. }
+  assert (Hq : (do a <- gen_pawn_moves prom_nq v 2 false 0; do cs <- gen_castling v 2; do k <- gen_king_moves v 2 false;
+                do m <- gen_moves v 2 false 0; Some (a ++ cs ++ k ++ m)) = Some (concat (map comp (seq 9 6)))).
+  { unfold gen_pawn_moves. replace (has_nq 2) with false by reflexivity. replace (has_q 2) with true by reflexivity.
+    cbn [bind]. rewrite (gen_pawn_quiet_eq prom_nq p Hlegal). cbn [bind].
+    rewrite (gen_castling_eq p Hlegal). cbn [bind].
+    pose proof (gen_king_eq p Hlegal false k0 K1 K2 K3) as Hkg. change (mode_of false) with 2 in Hkg. rewrite Hkg. cbn [bind].
+    pose proof (gen_moves_eq p Hlegal false) as Hmg. change (mode_of false) with 2 in Hmg. rewrite Hmg.
+    cbn [bind seq map concat comp app]. rewrite !app_nil_r, <- !app_assoc. reflexivity. }
+  destruct (has_nq mode), (has_q mode); rewrite ?Hnq, ?Hq; cbn [bind app]; rewrite ?map_app, ?concat_app, ?app_nil_r; reflexivity.
+Qed.
+
+Lemma ev_list mode : gen_pseudo prom_nq v mode true =
+  Some (concat (map (fun k => filter (comp_keep k) (comp k)) (ks mode))).
+Proof.
+  destruct king_facts as (K1 & K2 & K3).
+  unfold gen_pseudo, ks. rewrite (evasion_targets_some p Hlegal). cbn [bind].
+  assert (Htrue : forall l : list N, filter (fun _ => true) l = l).
+  { induction l as [|x l IH]; cbn [filter]; [reflexivity|now rewrite IH]. }
+  assert (Hfalse : forall l : list N, filter (fun _ => false) l = []).
+  { induction l as [|x l IH]; cbn [filter]; [reflexivity|exact IH]. }
+  assert (Hnq : (do a <- gen_pawn_moves prom_nq v 1 true evt; do k <- gen_king_moves v 1 true; do m <- gen_moves v 1 true evt;
+                 Some (a ++ k ++ m)) = Some (concat (map (fun k => filter (comp_keep k) (comp k)) (seq 0 9)))).
+  { unfold gen_pawn_moves. replace (has_nq 1) with true by reflexivity. replace (has_q 1) with false by reflexivity.
+    unfold gen_pawn_nonquiet.
+    rewrite (ev_captures p Hlegal evt DW (or_introl eq_refl)), (ev_captures p Hlegal evt DE (or_intror eq_refl)). cbn [bind].
+    rewrite ep_part. cbn [bind]. rewrite (ev_promnq prom_nq p Hlegal evt). cbn [bind].
+    pose proof (ev_king p Hlegal true k0 K1 K2 K3) as Hkg. change (mode_of true) with 1 in Hkg. rewrite Hkg. cbn [bind].
+    pose proof (ev_moves p Hlegal evt true) as Hmg. change (mode_of true) with 1 in Hmg. rewrite Hmg.
+    cbn [bind seq map concat comp comp_keep]. unfold tmask.
+    rewrite !Htrue, !app_nil_r, <- !app_assoc. reflexivity. }
+  assert (Hq : (do a <- gen_pawn_moves prom_nq v 2 true evt; do cs <- Some []; do k <- gen_king_moves v 2 true;
+                do m <- gen_moves v 2 true evt; Some (a ++ cs ++ k ++ m)) =
+               Some (concat (map (fun k => filter (comp_keep k) (comp k)) (seq 9 6)))).
+  { unfold gen_pawn_moves. replace (has_nq 2) with false by reflexivity. replace (has_q 2) with true by reflexivity.
+    cbn [bind]. rewrite (ev_quiet prom_nq p Hlegal evt). cbn [bind].
+    pose proof (ev_king p Hlegal false k0 K1 K2 K3) as Hkg. change (mode_of false) with 2 in Hkg. rewrite Hkg. cbn [bind].
+    pose proof (ev_moves p Hlegal evt false) as Hmg. change (mode_of false) with 2 in Hmg. rewrite Hmg.
+    cbn [bind seq map concat comp comp_keep app]. unfold tmask.
+    rewrite !Hfalse, !app_nil_r, <- !app_assoc. reflexivity. }
+  destruct (has_nq mode), (has_q mode); rewrite ?Hnq, ?Hq; cbn [bind app]; rewrite ?map_app, ?concat_app, ?app_nil_r; reflexivity.
+Qed.
+
+(** the kept moves as a predicate on specification moves / on codes *)
+Definition king_safe (t : N) : bool := (popcount (attacks_to_spec p t (flip c)) =? 0)%nat.
+
+Definition ev_keep_m (m : mv) : bool :=
+  if mtype m =? CASTLING then false
+  else if mtype m =? ENPASSANT then true
+  else if mover p m =? KING then king_safe (mto m)
+  else N.testbit evt (mto m).
+
+Definition decode_mv (y : N) : mv := mkmv (From y) (To y) (MoveType y) (PromotionType y).
+Definition ev_keep (y : N) : bool := ev_keep_m (decode_mv y).
+
+Lemma decode_mv_code m : valid_mv m -> decode_mv (code m) = m.
+Proof.
+  intros H. destruct (code_fields m H) as (A & B & C & D). unfold decode_mv. rewrite A, B, C, D. now destruct m.
+Qed.
+
+Lemma cls_tests m : valid_mv m ->
+  let k := cls prom_nq p m in
+  ev_keep_m m =
+  if k =? 12 then false else if (k =? 4) || (k =? 5) then true
+  else if (k =? 7) || (k =? 13) then king_safe (mto m) else N.testbit evt (mto m).
+Proof.
+  intros Hv. unfold ev_keep_m, cls. cbv zeta.
+  destruct (mtype m =? CASTLING); [reflexivity|].
+  destruct (mtype m =? ENPASSANT); [destruct (file_of (mfrom m) <? file_of (mto m)); reflexivity|].
+  destruct (N.eqb_spec (mover p m) PAWN) as [Ep|Ep].
+  - rewrite Ep. change (PAWN =? KING) with false. cbv iota.
+    repeat match goal with |- context [if ?x then _ else _] =>
+      match x with context [cls] => fail 1 | _ => destruct x end end; reflexivity.
+  - destruct (mover p m =? KING); destruct (piece_at p (mto m) =? 0); reflexivity.
+Qed.
+
+Lemma keep_agree k y : (k < 15)%nat -> In y (comp k) -> comp_keep k y = ev_keep y.
+Proof.
+  intros Hk Hy. apply (comp_class k y Hk) in Hy. apply class_codes_in in Hy as (m & Hm & Hc & <-).
+  pose proof (pseudo_valid p m (legal_wfp p Hlegal) Hm) as Hv.
+  unfold ev_keep. rewrite (decode_mv_code m Hv), (cls_tests m Hv). cbv zeta. rewrite Hc.
+  unfold comp_keep, king_keep. rewrite (code_to m Hv). unfold king_safe.
+  assert (Hcases : (k = 0 \/ k = 1 \/ k = 2 \/ k = 3 \/ k = 4 \/ k = 5 \/ k = 6 \/ k = 7 \/ k = 8 \/ k = 9 \/
+                    k = 10 \/ k = 11 \/ k = 12 \/ k = 13 \/ k = 14)%nat) by lia.
+  destruct Hcases as [->|[->|[->|[->|[->|[->|[->|[->|[->|[->|[->|[->|[->|[->| ->]]]]]]]]]]]]]]; reflexivity.
+Qed.
+
+Theorem gen_pseudo_evasion_filter mode : exists l,
+  gen_pseudo prom_nq v mode false = Some l /\ gen_pseudo prom_nq v mode true = Some (filter ev_keep l).
+Proof.
+  exists (concat (map comp (ks mode))). split; [apply nonev_list|]. rewrite ev_list. f_equal.
+  assert (Hks : forall k, In k (ks mode) -> (k < 15)%nat).
+  { intros k Hk. unfold ks in Hk. apply in_app_or in Hk as [Hk|Hk].
+    - destruct (has_nq mode); [apply in_seq in Hk; lia|destruct Hk].
+    - destruct (has_q mode); [apply in_seq in Hk; lia|destruct Hk]. }
+  induction (ks mode) as [|k l IH]; cbn [map concat filter]; [reflexivity|].
+  rewrite filter_app, IH by (intros x Hx; apply Hks; now right). f_equal.
+  apply filter_ext_in. intros y Hy. apply keep_agree; [apply Hks; now left|exact Hy].
+Qed.
+
+Theorem evasion_sound mode : exists le l,
+  gen_pseudo prom_nq v mode true = Some le /\ gen_pseudo prom_nq v mode false = Some l /\
+  (forall x, In x le -> In x l).
+Proof.
+  destruct (gen_pseudo_evasion_filter mode) as (l & H1 & H2). exists (filter ev_keep l), l.
+  repeat split; try assumption. intros x Hx. now apply filter_In in Hx.
+Qed.
+
+Lemma nonev_nodup mode l : gen_pseudo prom_nq v mode false = Some l -> NoDup l.
+Proof.
+  intros Hl. destruct (gen_pseudo_modes prom_nq p Hlegal) as (nq & q & H1 & H2 & H3 & _).
+  destruct (pseudo_exact prom_nq p Hlegal) as (l3 & E3 & _ & N3). rewrite H3 in E3. injection E3 as <-.
+  apply nodup_app_inv in N3 as (Nn & Nq & _).
+  rewrite nonev_list in Hl, H1, H2, H3. injection Hl as <-. injection H1 as <-. injection H2 as <-.
+  unfold ks in *. replace (has_nq 1) with true in Nn by reflexivity. replace (has_q 1) with false in Nn by reflexivity.
+  replace (has_nq 2) with false in Nq by reflexivity. replace (has_q 2) with true in Nq by reflexivity.
+  rewrite app_nil_r in Nn. cbn [app] in Nq.
+  destruct (has_nq mode), (has_q mode); cbn [app]; rewrite ?app_nil_r; try assumption.
+  - destruct (pseudo_exact prom_nq p Hlegal) as (l3 & E3 & _ & N3). rewrite nonev_list in E3. injection E3 as <-.
+    exact N3.
+  - constructor.
+Qed.
+
+Theorem evasion_nodup mode le : gen_pseudo prom_nq v mode true = Some le -> NoDup le.
+Proof.
+  intros Hle. destruct (gen_pseudo_evasion_filter mode) as (l & H1 & H2). rewrite H2 in Hle. injection Hle as <-.
+  apply NoDup_filter. now apply (nonev_nodup mode).
+Qed.
+
+End Assembly.
+
+Print Assumptions evasion_sound.
+Print Assumptions evasion_nodup.
